@@ -683,15 +683,15 @@ fn structured_elements(c: &Curve) -> Vec<MEl> {
         {
             let f = &c.f;
             let mut cands: Vec<B> = Vec::new();
+            for v in [c.zeta.clone(), f.inv(&c.zeta).unwrap(), f.sq(&c.zeta), c.d.clone(), f.sub(&c.a, &c.d), f.inv(&b(2)).unwrap(), b(22), b(15), b(5), f.sqrt(&f.neg(&b(1))).unwrap()] {
+                for k in 1u64..=4 {
+                    cands.push(f.abs(&f.mul(&b(k), &v)));
+                }
+            }
             for sh in [64usize, 128, 192] {
                 for k in 1u64..=40 {
                     cands.push(b(k) << sh);
                     cands.push((b(k) << sh) + (b(k) << (sh - 64)));
-                }
-            }
-            for v in [c.zeta.clone(), f.inv(&c.zeta).unwrap(), f.sq(&c.zeta), c.d.clone(), f.sub(&c.a, &c.d), f.inv(&b(2)).unwrap(), b(22), b(15), b(5), f.sqrt(&f.neg(&b(1))).unwrap()] {
-                for k in 1u64..=4 {
-                    cands.push(f.abs(&f.mul(&b(k), &v)));
                 }
             }
             let mut kept = 0;
@@ -700,7 +700,7 @@ fn structured_elements(c: &Curve) -> Vec<MEl> {
                     if let Ok(p) = c.decode_spec_fe(&s) {
                         z.push(MEl { pt: p, class: "structured-encoding" });
                         kept += 1;
-                        if kept >= 40 {
+                        if kept >= 64 {
                             break;
                         }
                     }
